@@ -30,6 +30,7 @@ class Scheduler:
         self._waiting = []      # (arrival number, conn, info)
         self._n = 0
         self._main_ppid = None
+        self._free = False
         self._last_arrival = time.time()
         self._lock = threading.Lock()
         self._srv = socket.socket(socket.AF_UNIX, socket.SOCK_STREAM)
@@ -65,7 +66,7 @@ class Scheduler:
             if self._main_ppid is None:
                 # the first run is the golden run, started by the main process
                 self._main_ppid = info.get('ppid')
-            if info.get('ppid') == self._main_ppid:
+            if info.get('ppid') == self._main_ppid or self._free:
                 # a check of the main process (golden run, sequential ddmin):
                 # nothing to choose from
                 try:
@@ -110,6 +111,15 @@ class Scheduler:
             elif self.choices:
                 idx = self.choices.pop(0) % k
                 self.decisions.append((k, idx))
+            elif self.tail == 'free':
+                # the controlled prefix is over: let everything run
+                self._free = True
+                while True:
+                    with self._lock:
+                        if not self._waiting:
+                            break
+                    self._release(0)
+                continue
             else:
                 idx = 0 if self.tail == 'fifo' else k - 1
                 self.decisions.append((k, idx))
